@@ -241,6 +241,10 @@ class Executor(object):
             vs = self._field_sort(f)
             arr = z3.Const("H0_%s" % key.replace(".", "_").replace("*", "any"), z3.ArraySort(Ref, vs))
             na = z3.Const("H0n_%s" % key.replace(".", "_").replace("*", "any"), z3.ArraySort(Ref, B)) if (f.opt and f.kind != "ref") else None
+            if f.kind.startswith("map:"):
+                # second slot of a map field: its key set (domain)
+                ks = f.kind.split(":")[1]
+                na = z3.Const("H0dom_%s" % key.replace(".", "_").replace("*", "any"), z3.ArraySort(Ref, z3.ArraySort(sort_of(ks, self.bits), B)))
             st.heap[key] = (arr, na)
             if self.old_state is not None and key not in self.old_state.heap:
                 self.old_state.heap[key] = (arr, na)
@@ -264,7 +268,9 @@ class Executor(object):
         arr, na = self.heap_arrays(st, key, f)
         v = z3.Select(arr, obj.t)
         kind = f.kind
-        if kind.startswith("map:") or kind.startswith("set:"):
+        if kind.startswith("map:"):
+            return SV(kind, v, cls=f.cls, x=(obj, attr, key, z3.Select(na, obj.t)))
+        if kind.startswith("set:"):
             return SV(kind, v, cls=f.cls)
         if kind == "ref" and not f.opt:
             st.assume(v != NONE)  # type invariant of a non-optional reference field
@@ -537,6 +543,8 @@ class Executor(object):
             raise DeadPath()
         if base.kind == "str":
             return SV("func", "str." + attr, x=base)
+        if base.kind.startswith("map:"):
+            return SV("func", "map." + attr, x=base)
         raise Unsupported("attribute .%s of %s" % (attr, base.kind))
 
     def _find_property(self, cls, attr):
@@ -798,11 +806,96 @@ class Executor(object):
         if container.kind.startswith("set:"):
             return z3.Select(container.t, item.t)
         if container.kind.startswith("map:"):
-            dom = self.map_dom(st, container)
-            return z3.Select(dom, item.t)
+            return z3.Select(container.x[3], self._key_term(container, item))
         if container.kind == "tuple":
             return z3.Or(*[self.py_eq(item, x) for x in container.t]) if container.t else z3.BoolVal(False)
         raise Unsupported("membership in %s" % container.kind)
+
+    # ---- dictionaries as maps (domain + value arrays); only on the access path obj.field
+    def _key_term(self, m, k):
+        ks = m.kind.split(":")[1]
+        if k.kind == "none" and ks == "ref":
+            return NONE
+        if k.kind != ks:
+            raise Unsupported("map key of kind %s, expected %s" % (k.kind, ks))
+        return k.t
+
+    def _val_sv(self, m, t, none=None):
+        vs = m.kind.split(":")[2]
+        return SV(vs, t, none=none, cls=m.cls)
+
+    def map_store(self, st, m, newval, newdom):
+        obj, attr, key, dom = m.x
+        f = self.schema[key]
+        arr, da = self.heap_arrays(st, key, f)
+        st.heap[key] = (z3.Store(arr, obj.t, newval), z3.Store(da, obj.t, newdom))
+
+    def ev_Subscript(self, e, st):
+        base = self.ev(e.value, st)
+        ln = getattr(e, "lineno", None)
+        if base.kind.startswith("map:"):
+            k = self.ev(e.slice, st)
+            kt = self._key_term(base, k)
+            present = z3.Select(base.x[3], kt)
+            if not self.spec:
+                # a missing key raises KeyError: an exceptional exit (caught by an enclosing
+                # `except KeyError`, otherwise an unexpected raise of the function)
+                x = st.copy()
+                x.assume(z3.And(*self.guard, z3.Not(present)) if self.guard else z3.Not(present))
+                self.pending_raises.append(Exit("raise", x, exc="KeyError", lineno=ln))
+                st.assume(z3.Implies(z3.And(*self.guard), present) if self.guard else present)
+            return self._val_sv(base, z3.Select(base.t, kt))
+        return self.subscript_other(e, st, base)
+
+    def subscript_other(self, e, st, base):
+        raise Unsupported("subscript on %s at line %s" % (base.kind, getattr(e, "lineno", "?")))
+
+    def assign_subscript(self, st, target, v, ln):
+        base = self.ev(target.value, st)
+        if base.kind.startswith("map:"):
+            k = self.ev(target.slice, st)
+            kt = self._key_term(base, k)
+            vs = base.kind.split(":")[2]
+            if v.kind != vs:
+                v = self.coerce(v, Field(vs), "map value")
+            self.map_store(st, base, z3.Store(base.t, kt, v.t), z3.Store(base.x[3], kt, True))
+            return
+        raise Unsupported("subscript store at line %s" % ln)
+
+    def map_method(self, st, m, name, args, ln):
+        if name == "pop":
+            kt = self._key_term(m, args[0])
+            present = z3.Select(m.x[3], kt)
+            if len(args) < 2:
+                x = st.copy()
+                x.assume(z3.Not(present))
+                self.pending_raises.append(Exit("raise", x, exc="KeyError", lineno=ln))
+                st.assume(present)
+                res = self._val_sv(m, z3.Select(m.t, kt))
+            else:
+                if args[1].kind != "none":
+                    raise Unsupported("dict.pop with a non-None default")
+                vs = m.kind.split(":")[2]
+                if vs == "ref":
+                    res = SV("ref", z3.If(present, z3.Select(m.t, kt), NONE), cls=m.cls)
+                else:
+                    res = self._val_sv(m, z3.Select(m.t, kt), none=z3.Not(present))
+            self.map_store(st, m, m.t, z3.Store(m.x[3], kt, False))
+            return res
+        if name == "clear":
+            ks = m.kind.split(":")[1]
+            self.map_store(st, m, m.t, z3.K(sort_of(ks, self.bits), z3.BoolVal(False)))
+            return NoneV()
+        if name == "get":
+            kt = self._key_term(m, args[0])
+            present = z3.Select(m.x[3], kt)
+            if len(args) > 1 and args[1].kind != "none":
+                raise Unsupported("dict.get with a non-None default")
+            vs = m.kind.split(":")[2]
+            if vs == "ref":
+                return SV("ref", z3.If(present, z3.Select(m.t, kt), NONE), cls=m.cls)
+            return self._val_sv(m, z3.Select(m.t, kt), none=z3.Not(present))
+        raise Unsupported("dict method %s" % name)
 
     def ev_Tuple(self, e, st):
         return SV("tuple", tuple(self.ev(x, st) for x in e.elts))
@@ -963,6 +1056,14 @@ class Executor(object):
         a, b = self._sargs(e, st)
         return SV("bool", self.py_eq(a, b))
 
+    def sp_has(self, e, st):
+        m, k = self._sargs(e, st)
+        return SV("bool", z3.Select(m.x[3], self._key_term(m, k)))
+
+    def sp_get(self, e, st):
+        m, k = self._sargs(e, st)
+        return self._val_sv(m, z3.Select(m.t, self._key_term(m, k)))
+
     def sp_forall_ref(self, e, st):
         """forall_ref('Class', lambda r: body)"""
         cls = e.args[0].value
@@ -992,6 +1093,8 @@ class Executor(object):
         if f.kind == "func":
             if isinstance(f.t, str) and f.t.startswith("str."):
                 return self.str_method(st, f.x, f.t[4:], args, ln)
+            if isinstance(f.t, str) and f.t.startswith("map."):
+                return self.map_method(st, f.x, f.t[4:], args, ln)
             if f.x is not None:  # bound method
                 return self.call_method(st, f.x, f.t, args, kw, ln)
             # class-qualified or module function
@@ -1258,7 +1361,10 @@ class Executor(object):
         arr2 = z3.Store(arr, obj.t, fv)
         na2 = na
         if na is not None:
-            na2 = z3.Store(na, obj.t, z3.Bool("hvn_%s!%d" % (attr, self.fresh_n)))
+            if f.kind.startswith("map:"):
+                na2 = z3.Store(na, obj.t, z3.Const("hvdom_%s!%d" % (attr, self.fresh_n), na.sort().range()))
+            else:
+                na2 = z3.Store(na, obj.t, z3.Bool("hvn_%s!%d" % (attr, self.fresh_n)))
         if f.kind == "bits":
             st.assume(self.bits.wf(fv))
         st.heap[key] = (arr2, na2)
@@ -1405,9 +1511,6 @@ class Executor(object):
             self.assign_subscript(st, target, v, ln)
         else:
             raise Unsupported("assignment target %s" % type(target).__name__)
-
-    def assign_subscript(self, st, target, v, ln):
-        raise Unsupported("subscript store at line %s" % ln)
 
     def st_If(self, s, st):
         cv = self.ev(s.test, st)
